@@ -371,3 +371,79 @@ def firstFailure (fails : String → Bool) : Option String := buildStages.find? 
 
 end Batch
 end Compass
+
+namespace Compass
+namespace Batch
+open MultiSet (Outcome)
+
+/-! ### a single-query function that may itself panic or not return -/
+
+/-- the searches of the bins, one after the other; a panic (or a search that does not return) in a worker is
+the outcome of the whole call (rayon propagates a worker's panic) -/
+def respondAllO (respondO : Json → Outcome Json) : List Json → Outcome (List Json)
+  | [] => .ok []
+  | q :: r =>
+    match respondO q with
+    | .panic s => .panic s
+    | .diverges => .diverges
+    | .ok v =>
+      match respondAllO respondO r with
+      | .ok vs => .ok (v :: vs)
+      | .panic s => .panic s
+      | .diverges => .diverges
+
+/-- everything of `run` before the searches: the bins and the error responses of the input stage -/
+def searchedO {α : Type} (W : WOps α) (cfg : Config) (batch : List Json) :
+    Outcome (Except AppErr (List (List Json) × List Json)) :=
+  match parChunksO (chunkSize batch.length cfg.selfPar) batch with
+  | .panic s => .panic s
+  | .diverges => .diverges
+  | .ok cs =>
+    match mapChunksO cfg.plugins cs with
+    | .panic s => .panic s
+    | .diverges => .diverges
+    | .ok results =>
+      let processed := ((results.map (·.1)).flatten).flatten
+      let errors := (results.map (·.2)).flatten
+      match balanceO W cfg.parallelism processed with
+      | .panic s => .panic s
+      | .diverges => .diverges
+      | .ok (.error e) => .ok (.error e)
+      | .ok (.ok bins) => .ok (.ok (bins, errors))
+
+/-- `CompassApp::run` over a single-query function with outcomes (`run_single_query` as it is: it may panic,
+it may not return).  Under both persistence policies every query of every bin is run. -/
+def runRO {α : Type} (W : WOps α) (cfg : Config) (respondO : Json → Outcome Json) (batch : List Json) :
+    Outcome (Except AppErr (List Json)) :=
+  match searchedO W cfg batch with
+  | .panic s => .panic s
+  | .diverges => .diverges
+  | .ok (.error e) => .ok (.error e)
+  | .ok (.ok (bins, errors)) =>
+    if bins.isEmpty then .ok (.ok errors)
+    else
+      match respondAllO respondO bins.flatten with
+      | .panic s => .panic s
+      | .diverges => .diverges
+      | .ok vs => .ok (.ok (if cfg.persist then vs ++ errors else errors))
+
+/-! ### the packaging of a response: `run_single_query` = search + `apply_output_processing` -/
+
+/-- `create_initial_output` + the output plugins + `package_error`, as far as the shape of the response goes.
+`search q`: `some text` = the search failed with this error text; an output plugin maps (request, output so
+far) to the new output or fails with an error text -/
+def applyOut : List (Json → Json → Except String Json) → Json → Json → Json
+  | [], _, out => out
+  | p :: ps, q, out =>
+    match p q out with
+    | .error e => .obj [("request", q), ("error", .str e)]
+    | .ok out' => applyOut ps q out'
+
+def singleQuery (search : Json → Option String) (plugins : List (Json → Json → Except String Json))
+    (q : Json) : Json :=
+  match search q with
+  | some e => .obj [("request", q), ("error", .str e)]
+  | none => applyOut plugins q (.obj [("request", q), ("output_plugin_executed_time", .str "")])
+
+end Batch
+end Compass
